@@ -1,5 +1,5 @@
 (** Property C11 - named maps are isolated; handles to the same map alias one state. *)
-From Aby Require Import Base Vu64 KeyTypes Consts Sizing Alloc Htx Store Iter Stats Layout Bulk Db Db_proofs.
+From Aby Require Import Base Vu64 KeyTypes Consts Sizing Alloc Htx Store Iter Stats Layout Bulk Db Db_proofs Spec World_refine.
 
 (** [Db.step] is the world-level model the correspondence runner executes against the crate: the
     files of every (directory, map name), database handles, map handles.  [target w o] is the map
@@ -48,6 +48,17 @@ Theorem C11_repeated_lookup_aliases : forall w nm m d t tm name p dir s,
   ((dir, name) ∈ opened w -> files w' = files w) /\
   forall mk', mk' <> (dir, name) -> files w' !! mk' = files w !! mk'.
 Proof. exact second_open_aliases. Qed.
+
+(** in ideal terms: a call changes at most the ideal map it targets - every other (directory, name)
+    keeps its ideal contents; calls without a target change no ideal map *)
+Theorem C11_ideal_isolation : forall w iw o mk mk',
+  target w o = Some mk -> mk' <> mk -> (istep w iw o).1 !! mk' = iw !! mk'.
+Proof. exact istep_frame. Qed.
+Theorem C11_ideal_no_target : forall w iw o, target w o = None -> (istep w iw o).1 = iw.
+Proof. exact istep_no_target. Qed.
+
+(** all maps of a world refine their own ideal maps simultaneously, whatever the interleaving
+    (C01_world_refines_ideal_maps in Props/C01.v) *)
 
 (** non-vacuity: two maps "a" (bytes) and "b" (u64) in one directory, a clone of a's handle *)
 Example C11_nonvacuous_clone_put_seen := Examples.clone_put_seen.
